@@ -37,19 +37,25 @@ def check(an: Analysis) -> None:
         outer = f.outer
         assert outer is not None
         # ------------------------------------------------------------ structure
-        loops = [n for n in f.own_nodes() if isinstance(n, ast.While)]
-        if len(loops) != 1 or not (isinstance(loops[0].test, ast.Constant) and loops[0].test.value is True):
-            raise AnalysisError(f"C14: {f.short} is expected to contain one `while True` retry loop")
-        loop = loops[0]
-        head = next(n for n in g.nodes if n.kind == "loop-head" and n.ast is loop)
         calls = [n for n in g.nodes if n.kind == "call" and isinstance(n.ast.func, ast.Name) and d.origins(n.ast.func) == {"param:function"}]  # type: ignore[union-attr]
-        if len(calls) != 1:
-            ob1.fail(f, None, f"the wrapped function is called at {len(calls)} sites inside the wrapper (must be one, inside the loop)")
+        wloops = [n for n in f.own_nodes() if isinstance(n, ast.While)]
+        floops = [n for n in f.own_nodes() if isinstance(n, (ast.For, ast.AsyncFor)) and any(within(c.ast, n) for c in calls)]
+        # form A: `while True` + attempt counter compared with limit;  form B: `for <attempt> in range(...)` + one final call
+        form_b = not wloops and len(floops) == 1 and isinstance(floops[0], ast.For)
+        if not form_b and (len(wloops) != 1 or not (isinstance(wloops[0].test, ast.Constant) and wloops[0].test.value is True)):
+            raise AnalysisError(f"C14: {f.short} is expected to contain one `while True` retry loop (or one `for ... in range(...)` loop followed by the final attempt)")
+        loop = floops[0] if form_b else wloops[0]
+        head = next(n for n in g.nodes if n.kind in ("loop-head", "for-iter") and n.ast is loop)
+        final_calls = [c for c in calls if not within(c.ast, loop)] if form_b else []
+        calls = [c for c in calls if c not in final_calls]
+        if len(calls) != 1 or (form_b and len(final_calls) != 1):
+            ob1.fail(f, None, f"the wrapped function is called at {len(calls)} site(s) inside the retry loop" + (f" and {len(final_calls)} after it (must be one final attempt)" if form_b else " (must be one)"))
             continue
         call = calls[0]
-        ob1.inst(f, call.ast)
-        if not forwards_varargs(call.ast, va, kwa):
-            ob1.fail(f, call.ast, "the wrapped function is not called with the caller's (*args, **kwargs)")
+        for c in calls + final_calls:
+            ob1.inst(f, c.ast)
+            if not forwards_varargs(c.ast, va, kwa):
+                ob1.fail(f, c.ast, "the wrapped function is not called with the caller's (*args, **kwargs)")
         tries = [t for t in f.own_nodes() if isinstance(t, ast.Try) and any(within(call.ast, s) for s in t.body)]
         if len(tries) != 1 or not within(tries[0], loop):
             raise AnalysisError(f"C14: the call in {f.short} is expected to sit in one try inside the loop")
@@ -59,78 +65,28 @@ def check(an: Analysis) -> None:
             v = unwrap(r.ast.value)  # type: ignore[union-attr]
             if isinstance(v, ast.Await):
                 v = unwrap(v.value)
-            if not (v is call.ast or (isinstance(v, ast.Name) and any(o.startswith("call:?function") for o in d.origins(v)))):
+            if not (v is call.ast or any(v is c.ast for c in final_calls) or (isinstance(v, ast.Name) and any(o.startswith("call:?function") for o in d.origins(v)))):
                 ob1.fail(f, r.ast, "the wrapper returns something else than the wrapped function's result")
             if r.meta.get("handler") is not None:
                 ob2.fail(f, r.ast, "a failure is turned into a normal return")
         if g.search([head], lambda n: n.kind == "exit-return", skip_node=lambda n: n.kind == "return", skip_edge=lambda a, b, lab: lab == "exc") is not None:
             ob1.fail(f, loop, "the retry loop can be left by falling through / break without a result")
         # ------------------------------------------------------------ counter
-        guards = []
-        for n in g.nodes:
-            if n.kind == "test" and within(n.ast, tr) and isinstance(n.ast, ast.Compare):
-                names = {x.id for x in ast.walk(n.ast) if isinstance(x, ast.Name)}
-                if "limit" in names and len(n.ast.ops) == 1:
-                    guards.append(n)
-        if len(guards) != 1:
-            ob1.fail(f, tr, f"expected exactly one retry guard comparing the attempt counter with `limit`, found {len(guards)}")
-            continue
-        guard = guards[0]
-        ob1.inst(f, guard.ast, "retry guard")
-        cmpn: ast.Compare = guard.ast  # type: ignore[assignment]
-        sides = [cmpn.left, cmpn.comparators[0]]
-        ctr = next((s.id for s in sides if isinstance(s, ast.Name) and s.id != "limit"), None)
-        if ctr is None or not any(is_name(s, "limit") for s in sides):
-            raise AnalysisError(f"C14.1: unrecognised retry guard `{stmt_text(cmpn)}`")
-        op = type(cmpn.ops[0])
-        if is_name(cmpn.left, "limit"):
-            op = {ast.Lt: ast.Gt, ast.LtE: ast.GtE, ast.Gt: ast.Lt, ast.GtE: ast.LtE}.get(op, op)
-        if op not in (ast.Lt, ast.LtE):
-            ob1.fail(f, cmpn, f"retry guard `{stmt_text(cmpn)}` does not bound the number of attempts from above")
-            continue
-        inits = [n for n in f.own_nodes() if isinstance(n, (ast.Assign, ast.AnnAssign)) and is_name(n.targets[0] if isinstance(n, ast.Assign) else n.target, ctr)]
-        incs = [n for n in g.nodes if n.kind == "stmt" and isinstance(n.ast, ast.AugAssign) and is_name(n.ast.target, ctr)]
-        other_writes = [n for n in f.own_nodes() if isinstance(n, ast.NamedExpr) and n.target.id == ctr]
-        if len(inits) != 1 or within(inits[0], loop) or not (isinstance(inits[0].value, ast.Constant) and isinstance(inits[0].value.value, int)):
-            ob1.fail(f, inits[0] if inits else None, "the attempt counter is not initialised once, by a constant, before the loop (it would be reset or unbounded)")
-            continue
-        c0 = inits[0].value.value
-        shared = [n for n in f.own_nodes() if isinstance(n, (ast.Nonlocal, ast.Global)) and ctr in n.names]
-        if shared:
-            ob1.fail(f, shared[0], "the attempt counter is shared between invocations (nonlocal/global): overlapping calls of the same wrapped coroutine reset or consume each other's attempts")
-        bad_inc = [n for n in incs if not (isinstance(n.ast.op, ast.Add) and isinstance(n.ast.value, ast.Constant) and n.ast.value.value == 1)]
-        if bad_inc or other_writes or not incs:
-            ob1.fail(f, (bad_inc[0].ast if bad_inc else (other_writes[0] if other_writes else None)), "the attempt counter is not advanced by exactly `+= 1`")
-            continue
-        for n in incs:
-            ob1.inst(f, n.ast, "increment")
-        # exactly one increment on every path from the failing call back to the loop head
-        hentries = [t for t, lab in (_await_of(g, call) or call).succ if lab == "exc" and t.kind == "handler"]
-        lo, hi = 10**6, -1
-        for h in hentries:
-            a, b = g.count_range(lambda n: n in incs, h, lambda n: n is head)
-            if (a, b) != (-1, -1):
-                lo, hi = min(lo, a), max(hi, b)
-        if hi == -1:
-            ob1.fail(f, tr, "no path retries the call: failures are never retried")
-            continue
-        if (lo, hi) != (1, 1):
-            ob1.fail(f, incs[0].ast, f"between two attempts the counter is advanced {lo}..{hi} times (must be exactly once)")
-            continue
-        # increments on the success path / before the call would count calls, not retries
-        succ_inc = g.search([head], lambda n: n in incs, skip_node=lambda n: n.kind == "handler", skip_edge=lambda a, b, lab: lab == "exc")
-        pre = succ_inc is not None  # increment happens before the call on every iteration
-        # is the increment before or after the guard on the retry path?
-        inc_before_guard = g.search(hentries, lambda n: n is guard, skip_node=lambda n: n in incs, include_start=True) is None
-        g0 = c0 + (1 if (inc_before_guard or pre) else 0)
-        # passes = #{v >= g0 : v < limit} = limit - g0   (or  limit - g0 + 1 for <=); required == limit
-        extra = (-g0) if op is ast.Lt else (1 - g0)
-        if extra != 0:
-            ob1.fail(f, cmpn, f"retry bound is off: with init {c0}, guard `{stmt_text(cmpn)}` and the increment {'before' if g0 != c0 else 'after'} the guard the wrapper makes limit{extra:+d} retries, i.e. limit{extra + 1:+d} calls instead of limit+1")
-        # guard must really dominate every retry
-        w = g.search(hentries, lambda n: n is head, skip_edge=lambda a, b, lab: a is guard and lab == "T", include_start=True)
-        if w is not None:
-            ob1.fail(f, guard.ast, "the loop can continue without passing the attempt-limit guard", CFG.show_path(w))
+        guard = None
+        incs: list[Node] = []
+        pol = "T"
+        first_number = 1
+        if form_b:
+            res = _range_budget(an, ob1, f, d, loop, final_calls[0], g)
+            if res is None:
+                continue
+            ctr, first_number = res
+            hentries = [t for t, lab in (_await_of(g, call) or call).succ if lab == "exc" and t.kind == "handler"]
+        if not form_b:
+            res_a = _counter_budget(an, ob1, f, g, d, loop, head, call, tr)
+            if res_a is None:
+                continue
+            guard, incs, pol, ctr, hentries = res_a
         # ------------------------------------------------------------ C14.2 / C14.3 handlers
         for h in tr.handlers:
             classes = g.handler_classes(h)
@@ -225,8 +181,8 @@ def check(an: Analysis) -> None:
             def base(e: ast.AST, value=value):
                 if is_name(e, "delay"):
                     return value
-                if isinstance(e, ast.Compare) and e is guard.ast:
-                    return True  # a retry is being made
+                if guard is not None and isinstance(e, ast.Compare) and e is guard.ast:
+                    return pol == "T"  # a retry is being made
                 if matcher_ok and e is anys[0].ast:
                     return True
                 return NOVALUE
@@ -246,10 +202,20 @@ def check(an: Analysis) -> None:
                 arg = unwrap(sn.ast.args[0]) if sn.ast.args else None  # type: ignore[union-attr]
                 ob7.inst(f, sn.ast, f"delay is {label}")
                 if value is A_FUNC:
-                    ok = isinstance(arg, ast.Call) and d.origins(arg.func) <= {"param:delay"} and bool(d.origins(arg.func)) and len(arg.args) == 2 and not arg.keywords and is_name(arg.args[0], ctr) and is_name(arg.args[1], exc_name or "")
+                    ok = isinstance(arg, ast.Call) and d.origins(arg.func) <= {"param:delay"} and bool(d.origins(arg.func)) and len(arg.args) == 2 and not arg.keywords and is_name(arg.args[1], exc_name or "")
+                    if ok and form_b:
+                        from ..domains import linear_form
+
+                        lf = linear_form(d, arg.args[0])
+                        want_lf = {k: v for k, v in {f"name:{ctr}": 1, "1": 1 - first_number}.items() if v != 0}
+                        if lf is None or {k: int(v) for k, v in lf.items()} != want_lf:
+                            ob7.fail(f, sn.ast, f"the delay function does not get the 1-based attempt number (`{stmt_text(arg.args[0], 30)}` with the loop variable starting at {first_number})")
+                            continue
+                    elif ok:
+                        ok = is_name(arg.args[0], ctr)
                     if not ok:
                         ob7.fail(f, sn.ast, f"the delay function is not applied to ({ctr}, {exc_name}) in that order")
-                    else:
+                    elif not form_b:
                         w = g.search([rh_entry], lambda n, sn=sn: n is sn, skip_node=lambda n: n in incs, skip_edge=sc.skip)
                         if w is not None:
                             ob7.fail(f, sn.ast, "the delay function sees the attempt number before it was advanced (attempt numbers start at 1)", CFG.show_path(w))
@@ -281,6 +247,140 @@ def check(an: Analysis) -> None:
             ob4.fail(wrap, c, "a single exception class is not normalised to a collection (iterating a class raises TypeError on the first failure)")
         if not (is_name(kws.get("limit"), "limit") and is_name(kws.get("delay"), "delay") and c.args and is_name(c.args[0], "function")):
             ob4.fail(wrap, c, "limit / delay / function are not passed on unchanged")
+
+
+def _counter_budget(an: Analysis, ob1, f: FunctionInfo, g: CFG, d: Deps, loop: ast.AST, head: Node, call: Node, tr: ast.Try):
+    """Form A: `while True` with an attempt counter compared with `limit`.  Returns (guard, incs, pol, ctr, hentries) or None."""
+    guards = []
+    for n in g.nodes:
+        if n.kind == "test" and within(n.ast, tr) and isinstance(n.ast, ast.Compare):
+            names = {x.id for x in ast.walk(n.ast) if isinstance(x, ast.Name)}
+            if "limit" in names and len(n.ast.ops) == 1:
+                guards.append(n)
+    if len(guards) != 1:
+        ob1.fail(f, tr, f"expected exactly one retry guard comparing the attempt counter with `limit`, found {len(guards)}")
+        return None
+    guard = guards[0]
+    ob1.inst(f, guard.ast, "retry guard")
+    cmpn: ast.Compare = guard.ast  # type: ignore[assignment]
+    sides = [cmpn.left, cmpn.comparators[0]]
+    ctr = next((s.id for s in sides if isinstance(s, ast.Name) and s.id != "limit"), None)
+    if ctr is None or not any(is_name(s, "limit") for s in sides):
+        raise AnalysisError(f"C14.1: unrecognised retry guard `{stmt_text(cmpn)}`")
+    op = type(cmpn.ops[0])
+    if is_name(cmpn.left, "limit"):
+        op = {ast.Lt: ast.Gt, ast.LtE: ast.GtE, ast.Gt: ast.Lt, ast.GtE: ast.LtE}.get(op, op)
+    # polarity: which outcome of the comparison lets the loop continue (`if c < limit: retry` or `if c >= limit: raise`)
+    cont = {lab for t, lab in guard.succ if lab in ("T", "F") and g.search([t], lambda n: n is head, skip_edge=normal_only, include_start=True) is not None}
+    if len(cont) != 1:
+        ob1.fail(f, cmpn, f"retry guard `{stmt_text(cmpn)}` does not decide whether another attempt is made ({'both' if cont else 'neither'} outcome(s) continue the loop)")
+        return None
+    pol = cont.pop()
+    if pol == "F":
+        op = {ast.Lt: ast.GtE, ast.LtE: ast.Gt, ast.Gt: ast.LtE, ast.GtE: ast.Lt}.get(op, op)
+    if op not in (ast.Lt, ast.LtE):
+        ob1.fail(f, cmpn, f"retry guard `{stmt_text(cmpn)}` does not bound the number of attempts from above")
+        return None
+    inits = [n for n in f.own_nodes() if isinstance(n, (ast.Assign, ast.AnnAssign)) and is_name(n.targets[0] if isinstance(n, ast.Assign) else n.target, ctr)]
+    incs = [n for n in g.nodes if n.kind == "stmt" and isinstance(n.ast, ast.AugAssign) and is_name(n.ast.target, ctr)]
+    other_writes = [n for n in f.own_nodes() if isinstance(n, ast.NamedExpr) and n.target.id == ctr]
+    if len(inits) != 1 or within(inits[0], loop) or not (isinstance(inits[0].value, ast.Constant) and isinstance(inits[0].value.value, int)):
+        ob1.fail(f, inits[0] if inits else None, "the attempt counter is not initialised once, by a constant, before the loop (it would be reset or unbounded)")
+        return None
+    c0 = inits[0].value.value
+    shared = [n for n in f.own_nodes() if isinstance(n, (ast.Nonlocal, ast.Global)) and ctr in n.names]
+    if shared:
+        ob1.fail(f, shared[0], "the attempt counter is shared between invocations (nonlocal/global): overlapping calls of the same wrapped coroutine reset or consume each other's attempts")
+    bad_inc = [n for n in incs if not (isinstance(n.ast.op, ast.Add) and isinstance(n.ast.value, ast.Constant) and n.ast.value.value == 1)]
+    if bad_inc or other_writes or not incs:
+        ob1.fail(f, (bad_inc[0].ast if bad_inc else (other_writes[0] if other_writes else None)), "the attempt counter is not advanced by exactly `+= 1`")
+        return None
+    for n in incs:
+        ob1.inst(f, n.ast, "increment")
+    # exactly one increment on every path from the failing call back to the loop head
+    hentries = [t for t, lab in (_await_of(g, call) or call).succ if lab == "exc" and t.kind == "handler"]
+    lo, hi = 10**6, -1
+    for h in hentries:
+        a, b = g.count_range(lambda n: n in incs, h, lambda n: n is head)
+        if (a, b) != (-1, -1):
+            lo, hi = min(lo, a), max(hi, b)
+    if hi == -1:
+        ob1.fail(f, tr, "no path retries the call: failures are never retried")
+        return None
+    if (lo, hi) != (1, 1):
+        ob1.fail(f, incs[0].ast, f"between two attempts the counter is advanced {lo}..{hi} times (must be exactly once)")
+        return None
+    # increments on the success path / before the call would count calls, not retries
+    succ_inc = g.search([head], lambda n: n in incs, skip_node=lambda n: n.kind == "handler", skip_edge=lambda a, b, lab: lab == "exc")
+    pre = succ_inc is not None  # increment happens before the call on every iteration
+    # is the increment before or after the guard on the retry path?
+    inc_before_guard = g.search(hentries, lambda n: n is guard, skip_node=lambda n: n in incs, include_start=True) is None
+    g0 = c0 + (1 if (inc_before_guard or pre) else 0)
+    # passes = #{v >= g0 : v < limit} = limit - g0   (or  limit - g0 + 1 for <=); required == limit
+    extra = (-g0) if op is ast.Lt else (1 - g0)
+    if extra != 0:
+        ob1.fail(f, cmpn, f"retry bound is off: with init {c0}, guard `{stmt_text(cmpn)}` and the increment {'before' if g0 != c0 else 'after'} the guard the wrapper makes limit{extra:+d} retries, i.e. limit{extra + 1:+d} calls instead of limit+1")
+    # guard must really dominate every retry
+    w = g.search(hentries, lambda n: n is head, skip_edge=lambda a, b, lab: a is guard and lab == pol, include_start=True)
+    if w is not None:
+        ob1.fail(f, guard.ast, "the loop can continue without passing the attempt-limit guard", CFG.show_path(w))
+    return guard, incs, pol, ctr, hentries
+
+
+def _range_budget(an: Analysis, ob1, f: FunctionInfo, d: Deps, loop: ast.For, final_call: Node, g: CFG):
+    """Form B: `for <attempt> in range(...)` makes one guarded attempt per element, then one final, unguarded attempt.
+    The range must have exactly `limit` elements and be produced per invocation.  Returns (counter name, first element) or None."""
+    from ..domains import linear_form
+
+    prog = an.prog
+    if not isinstance(loop.target, ast.Name):
+        raise AnalysisError(f"C14: unrecognised loop target in {f.short}")
+    ctr = loop.target.id
+    ob1.inst(f, loop, "bounded retry loop")
+    if any(isinstance(x, ast.Break) for x in ast.walk(loop)):
+        raise AnalysisError(f"C14: `break` in the retry loop of {f.short} is not modelled")
+    it = unwrap(loop.iter)
+    where = f
+    dd = d
+    hops = 0
+    while isinstance(it, ast.Name) and hops < 4:
+        hops += 1
+        owner = dd.owner(it.id)
+        if owner is None:
+            raise AnalysisError(f"C14: cannot resolve the iterable `{it.id}` of the retry loop in {f.short}")
+        sv = Deps(prog, owner).single_value(it.id) if owner is not where else dd.single_value(it.id)
+        if sv is None:
+            raise AnalysisError(f"C14: the iterable `{it.id}` of the retry loop in {f.short} has several definitions")
+        if owner is not where:
+            where, dd = owner, Deps(prog, owner)
+        it = unwrap(sv)
+    one_shot = isinstance(it, ast.GeneratorExp) or (isinstance(it, ast.Call) and isinstance(it.func, ast.Name) and it.func.id in ("iter", "map", "filter", "zip", "enumerate", "reversed"))
+    if where is not f and one_shot:
+        ob1.fail(f, loop, f"the retry budget is a one-shot iterator created when the function is decorated (`{stmt_text(it, 50)}` in {where.short}): it is shared and used up across invocations - later calls get fewer (finally no) retries")
+        return None
+    if isinstance(it, ast.Call) and isinstance(it.func, ast.Name) and it.func.id == "iter" and len(it.args) == 1:
+        it = unwrap(it.args[0])
+    if not (isinstance(it, ast.Call) and isinstance(it.func, ast.Name) and it.func.id == "range" and 1 <= len(it.args) <= 2 and not it.keywords):
+        raise AnalysisError(f"C14: the retry loop of {f.short} iterates `{stmt_text(it, 50)}`, not a range(...)")
+    lo = {} if len(it.args) == 1 else linear_form(dd, it.args[0])
+    hi = linear_form(dd, it.args[-1])
+    if lo is None or hi is None or any(k not in ("1",) for k in lo):
+        raise AnalysisError(f"C14: bounds of `{stmt_text(it, 50)}` are not linear in `limit`")
+    first = int(lo.get("1", 0))
+    count = dict(hi)
+    count["1"] = count.get("1", 0) - first
+    count = {k: v for k, v in count.items() if v != 0}
+    if count != {"name:limit": 1}:
+        extra = count.get("1", 0) if set(count) <= {"name:limit", "1"} and count.get("name:limit") == 1 else None
+        ob1.fail(f, loop, f"`{stmt_text(it, 50)}` yields " + (f"limit{int(extra):+d}" if extra is not None else "a number other than `limit`") + " guarded attempts: with the final attempt the wrapper makes " + (f"limit{int(extra) + 1:+d}" if extra is not None else "?") + " calls instead of limit+1")
+        return None
+    # the final attempt: reached when the loop is exhausted, outcome handed over as it is
+    if any(isinstance(p2, ast.Try) and p2.handlers for p2 in _ancestors(final_call.ast) if within(p2, f.node)):
+        tr2 = next(p2 for p2 in _ancestors(final_call.ast) if isinstance(p2, ast.Try) and p2.handlers)
+        for h in tr2.handlers:
+            if any(k[0] != "reraise-same" for k in classify_handler(g, h)):
+                ob1.fail(f, h, "the outcome of the final attempt is intercepted instead of being handed to the caller")
+    return ctr, first
 
 
 def _helper_tests_isinstance(t: FunctionInfo, p_exc: str, p_cat: str) -> bool:
